@@ -100,9 +100,15 @@ def serializer_obligations(ctx, facts, rule=None, scope="all"):
         ctx.ob(R("SORT-TAINT"), "serialiser: the emitting loop iterates the sorted Vec", okl, fn=key, site=body.site(nb), detail=nshow(src)[:80])
         ctx.ob(R("SORT-TAINT"), "serialiser: the sort dominates the emitting loop", body.dominates(srt["bb"], h), fn=key, site=srt["site"], detail="bb%d -> loop bb%d" % (srt["bb"], h))
         # comparator: Ord::cmp(&a.0, &b.0)
-        clo = srt["args"][1]
+        clo = srt["args"][1] if len(srt["args"]) > 1 else ("none",)
         okcmp = False
         det = ""
+        if clo[0] == "none":
+            # sort() / sort_unstable(): the Ord of the element.  For (algorithm, digest) pairs that is the algorithm first;
+            # algorithms are unique (they come from a map), so the digest never decides
+            vty = body.locals[vecvar[1]]["ty"]
+            det = "element order of %s" % vty[:80]
+            okcmp = vty.startswith(("std::vec::Vec<(std::string::String,", "std::vec::Vec<(smartstring::SmartString<", "std::vec::Vec<(&str,", "std::vec::Vec<(std::borrow::Cow<'_, str>,", "std::vec::Vec<(&std::string::String,", "std::vec::Vec<(&smartstring::SmartString<"))
         if clo[0] == "closure":
             ct = norm(facts.body(clo[1]).resolve_local(0))
             det = nshow(ct)
